@@ -105,6 +105,13 @@ macro_rules! core_ops_impl {
                 (r, rep, arena.canaries_intact(), arena.len)
             }
 
+            pub fn finish_pub(r: (Result<(), String>, sched::Report, bool, usize), declared: usize, outs: Vec<Vec<u8>>) -> RunResult {
+                finish(r, declared, outs)
+            }
+            pub fn src_pub(seed: u64, k: u8) -> Source {
+                src(seed, k)
+            }
+
             fn finish(
                 r: (Result<(), String>, sched::Report, bool, usize),
                 declared: usize,
